@@ -1,11 +1,13 @@
 SPECIFICATION Spec
 CONSTANTS
   MaxSegs = 4
+  ReduceAt = 99
   QLevel = 1
   LawSegs = 3
   AllSegs = 1
+  GetSegs = 3
   KOk = 40
-  KErr = 1500
+  KErr = 4000
   HandleK = 4
   Seed = 1
   CompOK <- MCCompOK
